@@ -580,6 +580,15 @@ def hTainted : List Bool → List HOp → List Bool
   | fl, .papp i mask :: ops => hTainted (fl ++ [fl.getD i false || !prefixMask mask]) ops
   | fl, _ :: ops => hTainted fl ops
 
+/-- trigger of F18r: the judged item is the base item (pool position 0), it is an inline function (its
+`nargs` is `None`, so its arity is `len(self._items)`), and an earlier partial application in the history
+was written with a number of arguments different from the base arity (i.e. it was applied to a derived
+item): `func = copy(func); func[:] = tokens` assigns into the `_items` list that the shallow copies share -/
+def trigF18r (inlineBase : Bool) (baseArity : Nat) (before : List HOp) (i : Nat) : Bool :=
+  inlineBase && i == 0 && before.any (fun op => match op with
+    | .papp _ m => m.length != baseArity
+    | _ => false)
+
 /-! ## decidable regions: where the AST reading and the string-driven code agree by construction,
 the domain of the specification, and the trigger predicates of the known findings -/
 
@@ -645,7 +654,7 @@ def trigF18i (t : Ty) (v : List Item) : Bool := t.hasTypedFunc && hasMapArray v
 /-- trigger of F18d for one item: `instance of` / `treat as` evaluate a node kind test as a self-axis
 path step -/
 def trigF18dItem (l : Leaf) : Item → Bool
-  | .node k name kids root =>
+  | .node k _ kids root =>
     match l with
     | .anyNode => k == .document && !root                       -- node() only yields the context root document
     | .kind .namespace .none => k == .element                   -- namespace-node() yields the element's namespaces
